@@ -241,6 +241,18 @@ pub fn run(ctx: &Ctx) -> Rep {
         } else {
             check7(st, c);
         }
+        // hands whose best is a full house or better: 8 more seeded slot orders (shortcuts for strong hands)
+        {
+            let v7 = Seven::from(words_of(c)).hand_rank_value();
+            if v7 != 0 && v7 <= 322 && !ctx.smoke() {
+                let mut rng = Rng::new(seed, drive::hand_code(c) ^ 0x9B9B);
+                for _ in 0..8 {
+                    let p = permuted(c, &mut rng);
+                    check7(st, &p);
+                }
+                st.rep.add("full_house_or_better_hands_in_8_more_orders", 1);
+            }
+        }
         // call-history probe: the seven-card value taken right after ranking a suit-swapped twin (same ranks,
         // same suit histogram) must still be the minimum of its six-card values
         if drive::max_suit_count(c) >= 5 && selected(c, seed, 0x99, ctx.pick_hist(1, 2, 1)) {
